@@ -55,6 +55,14 @@ var sharedTable = func() map[string]string {
 	return m
 }()
 
+var sharedTableCopy = func() map[string]string {
+	m := map[string]string{}
+	for k, v := range sharedTable {
+		m[k] = v
+	}
+	return m
+}()
+
 func (j c09Job) build() *jen.File {
 	switch j.Kind {
 	case "table":
@@ -62,6 +70,10 @@ func (j c09Job) build() *jen.File {
 		r := rand.New(rand.NewSource(j.Seed))
 		f := jen.NewFile("p")
 		f.ImportNames(sharedTable)
+		if r.Intn(3) == 0 {
+			// a File's own additions to the table it was given: they are this File's, not the table's
+			f.ImportNames(map[string]string{fmt.Sprintf("tbl.io/mod%d/store-go", r.Intn(4)): fmt.Sprintf("own%d", r.Intn(3)), "tbl.io/extra/q": "extraq"})
+		}
 		k := r.Intn(4)
 		p := fmt.Sprintf("tbl.io/mod%d/store-go", k)
 		if r.Intn(2) == 0 {
@@ -284,6 +296,18 @@ func runC09(r *mon.Run) {
 		}
 		os.RemoveAll(dir)
 		r.Count("files_saved_concurrently", int64(saved))
+	}
+	// the table handed to the Files is the caller's: no File may have written to it
+	{
+		bad := len(sharedTable) != len(sharedTableCopy)
+		for k, v := range sharedTableCopy {
+			if sharedTable[k] != v {
+				bad = true
+			}
+		}
+		if bad {
+			r.Violate("shared-table-modified", mon.Case{Gen: "table", Seed: r.Seed}, "the name table passed to ImportNames of many Files was modified (%d entries, was %d)", len(sharedTable), len(sharedTableCopy))
+		}
 	}
 	r.Put("goroutines", G)
 	r.Put("concurrent_rounds", rounds)
